@@ -35,6 +35,16 @@ def cfgs(tier):
     return _CFG[tier]
 
 
+_CFG2 = {}
+
+
+def cfgs2(tier):
+    """The one- and two-rule configurators only (C15, C16, C17 use these in their quick tier; everything in thorough)."""
+    if tier not in _CFG2:
+        _CFG2[tier] = list(cfgspace.configurators(2)) if tier == "quick" else cfgs(tier)
+    return _CFG2[tier]
+
+
 def shards(tier):
     n = len(cfgs(tier))
     return [(lo, min(n, lo + 8)) for lo in range(0, n, 8)]
